@@ -15,7 +15,7 @@ LEVEL = "model_checking"
 LEVEL_TEXT = ("Explicit enumeration of `.if` programs (18 condition kinds: 0/1/2/-1 as literal, := constant, macro parameter, constant "
               "expression, undefined name alone and inside an expression) x else present/absent x 10 then-bodies (incl. empty, one that applies an undefined macro, a macro definition, a label used after the .if and a := override) x 6 else-bodies x 4 placements (top level, block, "
               "macro body, loop body) and `.for` programs (all bound pairs over {-2,0,1,3}^2, bounds from := constants, macro "
-              "parameters and expressions incl. & << >> at the top of the start bound; the constants are assigned again at the end of every program) x 10 bodies (empty expansion, a name assigned twice in one iteration and used as an inner loop bound, := shadowing inside the body, data over v, lda.b v, label + reference, nested loop over v*2+w, conditional, "
+              "parameters and expressions incl. & << >> at the top of the start bound; the constants are assigned again at the end of every program) x 11 bodies (empty expansion, a macro defined in the body and applied after the loop, a name assigned twice in one iteration and used as an inner loop bound, := shadowing inside the body, data over v, lda.b v, label + reference, nested loop over v*2+w, conditional, "
               "macro call with v, mixed) x 3 placements x 3 nestings (plain, inside a conditional, inside another loop; thorough: bound pairs over 9 values), and every nesting tree with <=3 items (thorough <=4), depth <=3, over 7 leaves (byte, loop variable, two loop variables, label, reference to it, := accumulation, macro call with the variable) and 8 containers (taken .if, .else branch of a false .if, .if over an undefined name, 2-iteration loop, loop over a second variable, zero-iteration loop, block, macro application). Each program is assembled by the real "
               "assembler and compared with (a) the reference expansion and (b) its hand-expanded twin (selected branch spliced in; "
               "`{ v = k ... }` per iteration) run through the same assembler. Tests check one true, one false condition and one loop.")
@@ -83,6 +83,7 @@ FOR_BODIES = {
     # expansion-time state inside the body: a := in an iteration's scope shadows the outer constant for that iteration only
     "assign-twice": [("const", "acc", N(5)), ("data", "db", [S("vv")]), ("const", "acc", ("b", "+", S("acc"), S("vv"))), ("data", "db", [S("acc")]),
                      ("for", "jj", N(0), S("acc"), [("data", "db", [N(0xC7)])])],
+    "defines-macro": [("macro", "mz", [], [("data", "db", [("b", "+", S("vv"), N(0xE3))])]), ("call", "mz", [])],  # applied again AFTER the loop
     "shadow-const": [("const", "acc", ("b", "+", S("acc"), N(1))), ("data", "db", [S("acc")]), ("if", S("acc"), [("data", "db", [N(0x5C)])], None)],
 }
 FOR_PLACES = ["top", "block", "macro"]
@@ -238,6 +239,10 @@ def for_programs(bk, tier):
                     else:
                         inner = loop
                     inner = wrapv(inner) if not twin or vname == "plain" else _twin_wrap(vname, inner)
+                    if bk == "defines-macro":
+                        if hi - lo < 1:
+                            macros.append(MZ0)  # no iteration defines it: the earlier definition stays
+                        inner = inner + [("call", "mz", [])]
                     body_stmts = skeleton(list(inner), place, macros)  # may add the `wrap` macro to `macros`
                     progs.append(CONSTS + macros + body_stmts)
                 yield progs[0], progs[1], (bk, btag, place, vname), (hi - lo != 1 or bk in ("label", "mixed"))
